@@ -148,6 +148,9 @@ func (s *Session) sender() chan *com.Packet {
 	return s.send
 }
 func (c *conn) stop(h connServer, x net.Conn) {
+	// NOTE: Both channel threads call stop; the second one clears 'c.host' while
+	//       the first one may still be using it below, so keep our own reference.
+	v := c.host
 	switch i := atomic.LoadUint32(&c.lock); i {
 	case 0:
 	case 1:
@@ -160,8 +163,11 @@ func (c *conn) stop(h connServer, x net.Conn) {
 	x.SetDeadline(time.Now().Add(-time.Second))
 	x.Close()
 	atomic.AddUint32(&c.lock, 1)
-	c.host.stateUnset(stateChannel)
-	c.host.chanWake()
+	if v == nil {
+		return
+	}
+	v.stateUnset(stateChannel)
+	v.chanWake()
 	h.clientLock()
 	for i := range c.subs {
 		h.clientClear(i)
